@@ -3,6 +3,8 @@ import LeptosModel.Proofs.HydrateLoad
 import LeptosModel.Proofs.HydrateInitial
 import LeptosModel.Proofs.HydrateSettle
 import LeptosModel.Proofs.HydrateFinal
+import LeptosModel.Proofs.HydrateStream
+import LeptosModel.Theorems.C07
 /-!
 # C05 — hydration adopts server-rendered HTML without mismatch
 
@@ -30,12 +32,18 @@ optional attributes, tuples nested arbitrarily (= fragments), `Option`, `Either`
 | `C05_inert_walk`, `C05_inert_walk_error` | proved: `InertElement::hydrate` moves cursor and position exactly like the element it was rendered from |
 | `C05_raw_text_child_witness`           | F-C05-2, outside the `wfV` grammar: a hydrated `<textarea>`/`<style>`/`<script>`/`<noscript>` keeps no child state |
 
-Streamed forms (remark, not a theorem of this file): for a view without asynchronous parts the
-in-order and the out-of-order stream concatenate to `toHtml v` (checked on every case of the
-correspondence run against the real `to_html_stream_in_order/out_of_order`); for views with `Suspend`
-parts the DOM after the streamed chunks have been applied is the DOM of `toHtml` of the resolved view —
-that reduction is C07's `C07_in_order` / `C07_out_of_order`, under which the theorems below apply
-verbatim to the resolved view.
+Streamed forms (section 8): views with `Suspend`s whose futures complete in any order, rendered by
+`to_html_stream_in_order` / `to_html_stream_out_of_order` / `resolve().await.to_html()` and hydrated by the client.
+
+| theorem | status |
+|---|---|
+| `C05_resolved`                         | proved (all views): the resolved form prints like the client's view |
+| `C05_stream_in_order`                  | proved (all views, all ready sets, all schedules, `Agree`): never panics; ended ⇒ chunks = client HTML (through `C07_in_order`) |
+| `C05_stream_out_of_order`              | proved (the same after the inline scripts, clean strings; through `C07_out_of_order`) |
+| `C05_stream_html`, `C05_stream_hydrates` | proved: what the driver computes is that HTML; parsed and hydrated it adopts every node, creates none |
+| `C05_stream_ready`                     | proved: nothing pending at render time ⇒ `Agree` |
+| `compile_inOrd`, `compile_oooWf`, `compile_doc` | proved (Proofs/HydrateStream): the programs are in C07's classes; `Agree` ⇒ resolved document = sync HTML, same final position |
+| `C05_suspend_position_witness_in_order`, `…_out_of_order`, `C05_suspend_position_agree` | F-C05-6 (known finding, class `suspend-position`): the position after a *pending* `Suspend` is guessed (in-order: `NextChild`; out-of-order: unchanged); a wrong guess merges two strings into one text node or adds a `<!>` the client does not expect |
 -/
 namespace Leptos.Hydrate
 open Leptos.Dom Leptos.View
@@ -313,6 +321,122 @@ theorem C05_inert_walk (d : Dom) (c : Cur) (tag : String) (as : List AttrVal) (c
 theorem C05_inert_walk_error (d : Dom) (c : Cur) (h : d.isElement (elemTarget d c) = false) :
     hydrateInert d c = .error (.element "" (elemTarget d c)) := by
   simp [hydrateInert, h]
+
+/-! ## 8. `Suspend` and the streamed forms
+
+A view with `Suspend`s (carried as `.any (suspTy fid) (.osome v)`, see Model/Hydrate) is rendered on the server by
+`to_html_stream_in_order`, `to_html_stream_out_of_order` or `resolve().await.to_html()` while its futures complete
+in any order; the client hydrates `clientOf v` (every future ready).  `compile` produces the builder program with the
+`Position` threaded; the programs are in the classes of C07's theorems (`compile_inOrd`, `compile_oooWf`), so the
+stream machine of `Model/Stream` delivers, for *every* completion schedule, the program's resolved document; and that
+document is the synchronous HTML of the client's view whenever every position guess of a pending `Suspend` is right
+(`Agree`, decidable; `compile_doc`).  Where a guess is wrong the following string gains or loses its `<!>`
+(F-C05-6, class `suspend-position`: `C05_suspend_position_witness_*`). -/
+
+/-- **C05_resolved.** `resolve().await.to_html()` of a view with `Suspend`s is `to_html()` of the client's view
+    (a resolved `Suspend` is `Some(value)`; `Vec`/`Keyed` resolve their items in list order). -/
+theorem C05_resolved (v : View) : toHtml (clientOf v) = toHtml v := toHtml_clientOf v
+
+/-- **C05_stream_in_order.** Every view, every set of futures ready at render time, every completion schedule: if
+    every guess is right, the in-order stream never panics and, once it has ended, its chunks concatenate to the HTML
+    the hydrating client expects. -/
+theorem C05_stream_in_order (v : View) (d0 : List Nat) (sched : List (List Nat))
+    (ha : Agree false d0 true v .firstChild = true) :
+    (∀ o ∈ ((Stream.startStream false d0 (compile false d0 true v .firstChild).1).polls sched).out,
+      o ≠ Stream.Poll.panic ∧ o ≠ Stream.Poll.stuck) ∧
+    (((Stream.startStream false d0 (compile false d0 true v .firstChild).1).polls sched).out.getLast? = some .done →
+      Stream.itemsOf ((Stream.startStream false d0 (compile false d0 true v .firstChild).1).polls sched).out
+        = toHtml (clientOf v)) := by
+  have h := Stream.C07_in_order _ (compile_inOrd d0 v true .firstChild) d0 sched
+  refine ⟨h.2.2, fun hl => ?_⟩
+  rw [h.2.1 hl, toHtml_clientOf]
+  simpa [docOf, toHtml] using (compile_doc false d0 v true .firstChild ha).1
+
+/-- **C05_stream_out_of_order.** The same for the out-of-order stream once the client has run the inline scripts
+    (strings free of marker / `<template` / `<script` text: C07's hygiene condition, decidable). -/
+theorem C05_stream_out_of_order (v : View) (d0 : List Nat) (sched : List (List Nat))
+    (ha : Agree true d0 true v .firstChild = true)
+    (hc : Stream.cleanOps (compile true d0 true v .firstChild).1 = true) :
+    (∀ o ∈ ((Stream.startStream true d0 (compile true d0 true v .firstChild).1).polls sched).out,
+      o ≠ Stream.Poll.panic ∧ o ≠ Stream.Poll.stuck) ∧
+    (((Stream.startStream true d0 (compile true d0 true v .firstChild).1).polls sched).out.getLast? = some .done →
+      Stream.applyScripts (Stream.itemsOf ((Stream.startStream true d0 (compile true d0 true v .firstChild).1).polls sched).out)
+        = toHtml (clientOf v)) := by
+  have h := Stream.C07_out_of_order _ (compile_oooWf d0 v true .firstChild) hc d0 sched
+  refine ⟨h.1, fun hl => ?_⟩
+  rw [h.2 hl, toHtml_clientOf]
+  simpa [docOf, toHtml] using (compile_doc true d0 v true .firstChild ha).1
+
+/-- **C05_stream_html.** What the correspondence driver computes (`stream`: the harness' plan, then polls to the
+    end) is, under the same conditions, the HTML of the client's view. -/
+theorem C05_stream_html (ooo : Bool) (d0 : List Nat) (steps : List (List Nat)) (v : View)
+    (ha : Agree ooo d0 true v .firstChild = true)
+    (hc : ooo = true → Stream.cleanOps (compile true d0 true v .firstChild).1 = true)
+    (hl : (stream ooo d0 steps v).last = some .done) :
+    (stream ooo d0 steps v).html = toHtml (clientOf v) := by
+  obtain ⟨s, hs⟩ := stream_polls ooo d0 steps v
+  simp only [stream, hs] at hl ⊢
+  cases ooo with
+  | false => simpa using (C05_stream_in_order v d0 s ha).2 hl
+  | true => simpa using (C05_stream_out_of_order v d0 s ha (hc rfl)).2 hl
+
+/-- **C05_stream_hydrates** (composition): stream → browser → hydrate.  The client's view hydrated against the DOM
+    built from what the parser reads in the streamed document succeeds with 0 nodes created and binds exactly the
+    loaded nodes — for every completion schedule. -/
+theorem C05_stream_hydrates (ooo : Bool) (d0 : List Nat) (steps : List (List Nat)) (v : View)
+    (hw : wfV [[]] (clientOf v) = true)
+    (ha : Agree ooo d0 true v .firstChild = true)
+    (hc : ooo = true → Stream.cleanOps (compile true d0 true v .firstChild).1 = true)
+    (hl : (stream ooo d0 steps v).last = some .done) :
+    ∃ ts, Html.parse (stream ooo d0 steps v).html = some ts ∧
+      ∃ c, hydrateFrom (loadRoot ts).1 (loadRoot ts).2.1 (clientOf v) =
+          .ok ⟨(adopt (clientOf v) .firstChild (loadRoot ts).2.2).1, c, 0⟩ ∧
+        bound (loadRoot ts).1 (adopt (clientOf v) .firstChild (loadRoot ts).2.2).1 = true := by
+  rw [C05_stream_html ooo d0 steps v ha hc hl]
+  exact C05_hydrate_parsed (clientOf v) hw
+
+/-- **C05_stream_ready.** No future pending at render time: no guess is made, both streams are the synchronous
+    HTML whatever the view. -/
+theorem C05_stream_ready (ooo : Bool) (d0 : List Nat) (v : View) (h : ∀ f ∈ fidsOf v, d0.contains f = true) :
+    Agree ooo d0 true v .firstChild = true := agree_of_ready ooo d0 v true .firstChild h
+
+/-! ### F-C05-6: the position after a pending `Suspend` is a guess (class `suspend-position`) -/
+
+/-- `("a", Suspend("b"), "c")` -/
+def exSuspText : View := .tuple [.text "a", .any (suspTy 0) (.osome (.text "b")), .text "c"]
+/-- `("a", Suspend(<b></b>), "c")` -/
+def exSuspElem : View := .tuple [.text "a", .any (suspTy 0) (.osome (.elem "b" [] .unit)), .text "c"]
+
+/-- in-order, pending: the caller continues with `NextChild`, the value leaves `NextChildAfterText`: `"c"` loses its
+    separator, the browser sees one text node `bc`, and two string states adopt that one node (the walk does not
+    notice: `Cursor::sibling` stays where it is when there is no sibling) — a rebuild of `"b"` then overwrites `"c"`.
+    With the future ready at render time the same view streams correctly. -/
+theorem C05_suspend_position_witness_in_order :
+    Agree false [] true exSuspText .firstChild = false ∧
+    (stream false [] [] exSuspText).last = some .done ∧
+    (stream false [] [] exSuspText).html = "a<!>bc".toList ∧
+    toHtml (clientOf exSuspText) = "a<!>b<!>c".toList ∧
+    likeCsr ((Html.parse (stream false [] [] exSuspText).html).getD []) (clientOf exSuspText)
+      (.tuple [.text "a", .any (suspTy 0) (.osome (.text "B")), .text "c"]) = false ∧
+    (stream false [0] [] exSuspText).html = "a<!>b<!>c".toList := by decide +kernel
+
+/-- out-of-order, pending: the caller continues with its own position (`NextChildAfterText`), the value (an
+    element) leaves `NextChild`: `"c"` gets a `<!>` the client does not expect — hydration fails. -/
+theorem C05_suspend_position_witness_out_of_order :
+    Agree true [] true exSuspElem .firstChild = false ∧
+    (stream true [] [] exSuspElem).last = some .done ∧
+    (stream true [] [] exSuspElem).html = "a<b></b><!>c".toList ∧
+    toHtml (clientOf exSuspElem) = "a<b></b>c".toList ∧
+    (match Html.parse (stream true [] [] exSuspElem).html with
+     | some ts => (hydrateFrom (loadRoot ts).1 (loadRoot ts).2.1 (clientOf exSuspElem)).toOption.isNone
+     | none => false) = true ∧
+    (stream true [0] [] exSuspElem).html = "a<b></b>c".toList := by decide +kernel
+
+/-- the other way round both guesses are right: the same two views stream correctly in the other mode -/
+theorem C05_suspend_position_agree :
+    Agree true [] true exSuspText .firstChild = true ∧ Agree false [] true exSuspElem .firstChild = true ∧
+    (stream true [] [] exSuspText).html = "a<!>b<!>c".toList ∧
+    (stream false [] [] exSuspElem).html = "a<b></b>c".toList := by decide +kernel
 
 /-! ## non-vacuity: the hypotheses are satisfiable and the conclusions bite
 
